@@ -7,6 +7,7 @@ seeds="${@:-$(ls seeded)}"
 PAR=${PAR:-4}
 run_one() {
   s=$1
+  if python3 -c "import json,sys;sys.exit(0 if json.load(open('seeded/$s/meta.json')).get('retired') else 1)"; then echo "$s retired (see meta.json)"; return; fi
   c=$(python3 -c "import json;print(json.load(open('seeded/$s/meta.json'))['caught_by']['check'])")
   tmp=$(mktemp -d /tmp/seedreg_XXXX)
   git -C /repo archive HEAD src/dliswriter | tar -x -C $tmp
